@@ -23,7 +23,7 @@ def spec(tier, seed):
         certs += [replace(b, san=(1, 2), strlen=3), replace(b, san=(4,), eku=(0, 6)), replace(b, issuance=2, aki=True, eku=(2,)),
                   replace(b, aki=True, san=(1, 3), ku=4, eku=(1, 2), nc=2, nc_perm=(1,), nc_excl=(3,), crl_dps=(2,), is_ca=3, path_len=5, custom=2, custom_crit=2)]
         csrs += [CsrShape(attrs=2, san=(0, 4)), CsrShape(custom=2, custom_crit=3, attrs=1), CsrShape(eku=(7, 1), attrs=2, strlen=3)]
-        crls += [CrlShape(revoked=(r,), invalidity=1) for r in (1, 5, 8, 10)] + [CrlShape(idp=1, idp_uris=2), CrlShape(kid=1, revoked=(3,))]
+        crls += [CrlShape(revoked=(r,), invalidity=1) for r in (1, 5, 8, 10)] + [CrlShape(idp=1, idp_uris=2), CrlShape(kid_len=0, revoked=(3,))]
     qs = [cert_query("c04", s, O_C04) for s in certs] + [csr_query("c04", s, O_C04) for s in csrs] + [crl_query("c04", s, O_C04) for s in crls]
     qs += u.ku_queries("c04", 2, tier, seed) + u.serial_queries("c04", tier) + u.algid_queries("c04")
     qs.append(Query(name="c04_spki", body="    units::spki_strict();", unwind=60, family="spki", functions=["rcgen::KeyPair::public_key_der"],
